@@ -195,6 +195,80 @@ func readProgram(prop string, w *simkit.World, fs cafs.Fs, key cafs.Key, content
 				}
 			}
 			w.Probe("readat-session")
+		case 5: // a sequential reader that pauses in mid-stream while random-access reads go through the same cafs
+			// (the leaf cache and the buffer pool are shared by all readers of one Fs)
+			r, err := fs.Get(bg, key)
+			if err != nil {
+				if faulty {
+					continue
+				}
+				return Viol(prop, "read-error", "Get", who, "Get of a stored object failed: %v", err)
+			}
+			x := uint64(op[1])*2654435761 + 99991
+			pos, zero, failed := 0, 0, false
+			for step := 0; ; step++ {
+				x = x*6364136223846793005 + 1442695040888963407
+				szs := []int{1, L / 2, L - 1, L, L + 1, 3, L/3 + 1}
+				sz := max(1, szs[(x>>8)%uint64(len(szs))])
+				if len(content) > 4000 && sz < 64 {
+					sz += 509
+				}
+				buf := make([]byte, sz)
+				n, err := r.Read(buf)
+				if n < 0 || n > sz || pos+n > len(content) || !bytes.Equal(buf[:n], content[pos:pos+n]) {
+					return Viol(prop, "wrong-bytes", "Read-interleaved", who, "sequential Read (buffer %d) at offset %d, interleaved with ReadAt calls on the same cafs, returned %d bytes that differ from the stored content (len %d, leaf %d)", sz, pos, n, len(content), L)
+				}
+				pos += n
+				if err == io.EOF {
+					break
+				}
+				if err != nil {
+					if faulty {
+						failed = true
+						break
+					}
+					return Viol(prop, "read-error", "Read-interleaved", who, "sequential Read failed at offset %d: %v", pos, err)
+				}
+				if n == 0 {
+					if zero++; zero > 3 {
+						return Viol(prop, "no-progress", "Read-interleaved", who, "Read returned (0,nil) %d times in a row at offset %d of %d", zero, pos, len(content))
+					}
+				} else {
+					zero = 0
+				}
+				// between two sequential reads: op[2] random-access reads, each on a fresh reader of the same cafs
+				for j := 0; j < op[2] && len(content) > 0; j++ {
+					x = x*6364136223846793005 + 1442695040888963407
+					off := int((x >> 16) % uint64(len(content)))
+					if (x>>4)%3 == 0 { // the leaf the sequential reader is in, or the next ones
+						off = min(len(content)-1, (pos/L+int((x>>6)%3))*L)
+					}
+					ln := 1 + int((x>>40)%uint64(L+2))
+					ra, err := fs.GetAt(bg, key)
+					if err != nil {
+						if faulty {
+							continue
+						}
+						return Viol(prop, "read-error", "GetAt", who, "GetAt failed: %v", err)
+					}
+					b2 := make([]byte, ln)
+					n2, err := ra.ReadAt(b2, int64(off))
+					if err != nil && err != io.EOF {
+						if faulty {
+							continue
+						}
+						return Viol(prop, "read-error", "ReadAt-interleaved", who, "ReadAt(len %d, off %d) failed: %v", ln, off, err)
+					}
+					if want := min(ln, len(content)-off); n2 != want || !bytes.Equal(b2[:n2], content[off:off+n2]) {
+						return Viol(prop, "wrong-bytes", "ReadAt-interleaved", who, "ReadAt(len %d, off %d) between sequential reads returned %d bytes (want %d) or wrong bytes (len %d, leaf %d)", ln, off, n2, want, len(content), L)
+					}
+				}
+			}
+			_ = r.Close()
+			if !failed && pos != len(content) {
+				return Viol(prop, "short-read", "Read-interleaved", who, "sequential Read ended with io.EOF after %d of %d bytes (leaf %d)", pos, len(content), L)
+			}
+			w.Probe("seq-read-interleaved-with-readat")
 		}
 	}
 	return nil
@@ -204,8 +278,10 @@ func drawReadOps(t *simkit.Tape, n int, size int, leaf uint32) [][3]int {
 	L := int(leaf)
 	ops := make([][3]int, n)
 	for i := range ops {
-		k := t.Pick(0, 1, 1, 1, 2, 3, 4)
+		k := t.Pick(0, 1, 1, 1, 2, 3, 4, 5)
 		switch k {
+		case 5:
+			ops[i] = [3]int{5, t.Choose(1 << 16), t.Range(1, 4)}
 		case 4:
 			ops[i] = [3]int{4, t.Choose(1 << 16), t.Range(2, 6)}
 		case 0:
